@@ -107,3 +107,28 @@ def show_event(facts, e):
     if k == "mutcall":
         return "%s(&mut %s)" % (e[1].split("::")[-1], A.show_loc(e[2]))
     return str(e[0])
+
+
+# --------------------------------------------------------------------------- A5 affine normal form
+
+def affine_norm(t, scale=1, acc=None):
+    """term -> ({leaf: coefficient}, constant) modulo 2^64 for terms built from + - and constants"""
+    if acc is None:
+        acc = [{}, 0]
+    t = strip(t)
+    if t[0] == "int":
+        acc[1] = (acc[1] + scale * t[1]) % (1 << 64)
+        return acc
+    if t[0] == "bin" and t[1] in ("Add", "Sub"):
+        affine_norm(t[2], scale, acc)
+        affine_norm(t[3], scale if t[1] == "Add" else -scale, acc)
+        return acc
+    acc[0][t] = acc[0].get(t, 0) + scale
+    if acc[0][t] == 0:
+        del acc[0][t]
+    return acc
+
+
+def affine_eq(a, b):
+    x, y = affine_norm(a), affine_norm(b)
+    return x[0] == y[0] and x[1] == y[1]
